@@ -26,6 +26,7 @@ import (
 type pst struct {
 	pos, line int
 	s         stmt
+	comments  []string // stage nl: the comment group the scanner hands to the statement
 }
 
 type mfile struct {
@@ -34,6 +35,7 @@ type mfile struct {
 	ckpt  bool
 	stmts []pst
 	text  string
+	hdr   []string // stage nl: header comment lines (trimmed)
 }
 
 type mdir struct {
@@ -47,6 +49,7 @@ type tcase struct {
 	dir    *mdir
 	dirKey string
 	latest int
+	nl     *nlCase // stage nl only
 }
 
 // buildFile renders the statements; style bits vary the layout (comments, blank
@@ -111,6 +114,9 @@ func (c *tcase) line() string {
 		for _, p := range f.stmts {
 			fmt.Fprintf(&b, " %d %s", p.pos, p.s.tokens())
 		}
+	}
+	if c.nl != nil {
+		b.WriteString(nlLine(c.dir))
 	}
 	return b.String()
 }
@@ -637,7 +643,7 @@ func uniq(l []string) []string {
 // ---------------------------------------------------------------- main
 
 func main() {
-	mode := flag.String("mode", "rand", "rand|exh")
+	mode := flag.String("mode", "rand", "rand|exh|nl")
 	tier := flag.String("tier", "quick", "quick|thorough")
 	outDir := flag.String("out", "", "output directory")
 	flag.Parse()
@@ -663,6 +669,9 @@ func main() {
 		cases = genRand(*tier)
 	case "exh":
 		cases = genExh(*tier)
+		w.Exhaust = true
+	case "nl":
+		cases = genNolint(*tier)
 		w.Exhaust = true
 	default:
 		fmt.Fprintln(os.Stderr, "unknown mode")
@@ -743,7 +752,12 @@ func main() {
 		if strings.Contains(r.obs, "DS103") {
 			w.Count("code/DS103")
 		}
-		oracle(w, c, r)
+		if c.nl != nil {
+			w.Count("shape/" + c.nl.shape)
+			oracleNolint(w, c, r)
+		} else {
+			oracle(w, c, r)
+		}
 	}
 	if bad > 0 {
 		w.Close()
